@@ -32,13 +32,19 @@ V2_HEAD = "# Sphinx inventory version 2\n# Project: {p}\n# Version: {v}\n# The r
 V1_HEAD = "# Sphinx inventory version 1\n# Project: {p}\n# Version: {v}\n"
 
 
-def ser_v2(project, version, lines, final_nl=True, level=6):
-    body = "\n".join(lines) + ("\n" if final_nl and lines else "")
+# how an entry line ends (files written on other systems / by other tools): line feed, CR LF, trailing blanks or tabs before the line end
+LINE_ENDS = {"lf": "\n", "crlf": "\r\n", "blanks": "  \n", "tab": "\t\n", "cr-blank": " \r\n"}
+
+
+def ser_v2(project, version, lines, final_nl=True, level=6, eol="lf"):
+    e = LINE_ENDS[eol]
+    body = e.join(lines) + (e if final_nl and lines else "")
     return V2_HEAD.format(p=project, v=version).encode() + zlib.compress(body.encode(), level)
 
 
-def ser_v1(project, version, lines, final_nl=True):
-    body = "\n".join(lines) + ("\n" if final_nl and lines else "")
+def ser_v1(project, version, lines, final_nl=True, eol="lf"):
+    e = LINE_ENDS[eol]
+    body = e.join(lines) + (e if final_nl and lines else "")
     return (V1_HEAD.format(p=project, v=version) + body).encode()
 
 
@@ -320,8 +326,10 @@ def run_shard(ctx):
         proj, ver = R.choice(["Proj", "My Project", "Ünï", ""]), R.choice(["1.0", "2.0rc1", ""])
         fmt = "v1" if R.random() < 0.2 else "v2"
         final_nl = R.random() < 0.85
-        b = ser_v2(proj, ver, v2_lines(rows), final_nl, R.choice([0, 1, 6, 9])) if fmt == "v2" else ser_v1(proj, ver, v1_lines(rows), final_nl)
-        case = {"kind": "load", "format": fmt, "rows": rows, "bytes": {"__bytes__": b.hex()}}
+        eol = R.choice(["lf", "lf", "lf", "crlf", "blanks", "tab", "cr-blank"])
+        b = ser_v2(proj, ver, v2_lines(rows), final_nl, R.choice([0, 1, 6, 9]), eol) if fmt == "v2" else ser_v1(proj, ver, v1_lines(rows), final_nl, eol)
+        case = {"kind": "load", "format": fmt, "rows": rows, "eol": eol, "bytes": {"__bytes__": b.hex()}}
+        ctx.count(f"line_ends:{fmt}:{eol}")
         one = eval_load(ctx, case)
         dup = len({(r[0], r[1]) for r in rows}) < len(rows)
         ctx.case(("load", b.hex()), nontrivial=bool(rows) and dup)
